@@ -64,6 +64,17 @@ Proof.
 Qed.
 Print Assumptions C08_wrapAny_pairs.
 
+(* … but WHICH value's location ends up in the crash message is not: with two
+   values on which wrapAny panics ("internal error: line l column c incompatible
+   types", the C03/C04 defect) the reported location follows the iteration order *)
+Theorem C08_wrapAny_panic_location_refuted : exists pi1 pi2, Permutation pi1 pi2 /\
+  wrap_loop wrap_w pi1 fempty = WrapPanic (s_ "a") /\ wrap_loop wrap_w pi2 fempty = WrapPanic (s_ "b").
+Proof.
+  exists [(s_ "a", false); (s_ "b", false)], [(s_ "b", false); (s_ "a", false)].
+  split; [apply perm_swap | vm_compute; split; reflexivity].
+Qed.
+Print Assumptions C08_wrapAny_panic_location_refuted.
+
 (* evaluator.sameMap (used by `test`): `same` cannot panic, so unconditionally *)
 Theorem C08_sameMap : forall V (same : V -> option V -> bool) (pi1 pi2 : list (str * V)) len2 got,
   Permutation pi1 pi2 -> sameMap same pi1 len2 got = sameMap same pi2 len2 got.
@@ -71,7 +82,8 @@ Proof. exact @sameMap_perm. Qed.
 Print Assumptions C08_sameMap.
 
 (* ------------------------------------------------------------------ *)
-(* parser.validateScope — order dependent                               *)
+(* parser.validateScope — order independent since /repo af9ee3d (C08_validateScope_fixed);
+   the loop before the fix is kept as regression model (_partial, _before_fix_refuted) *)
 
 (* what holds: the same errors are reported, in some order; a single unused
    variable cannot vary *)
@@ -83,11 +95,11 @@ Print Assumptions C08_validateScope_partial.
 
 Definition vs_a : str * var := (s_ "a", {| v_name := s_ "a"; v_line := 1; v_col := 1; v_used := false |}).
 Definition vs_b : str * var := (s_ "b", {| v_name := s_ "b"; v_line := 2; v_col := 1; v_used := false |}).
-Theorem C08_validateScope_refuted : exists pi1 pi2, Permutation pi1 pi2 /\ validateScope pi1 <> validateScope pi2.
+Theorem C08_validateScope_before_fix_refuted : exists pi1 pi2, Permutation pi1 pi2 /\ validateScope pi1 <> validateScope pi2.
 Proof. exists [vs_a; vs_b], [vs_b; vs_a]. split; [apply perm_swap | vm_compute; discriminate]. Qed.
-Print Assumptions C08_validateScope_refuted.
+Print Assumptions C08_validateScope_before_fix_refuted.
 
-(* proposed fix (sort the collected errors by token position) *)
+(* the code since af9ee3d (sort the collected errors by token position) *)
 Theorem C08_validateScope_fixed : forall pi1 pi2, Permutation pi1 pi2 ->
   NoDup (map fst (validateScope pi1)) -> validateScope_fixed pi1 = validateScope_fixed pi2.
 Proof. exact validateScope_fixed_perm. Qed.
@@ -125,7 +137,8 @@ Qed.
 Print Assumptions C08_evalMapLiteral_before_fix_refuted.
 
 (* ------------------------------------------------------------------ *)
-(* evaluator.parseFontProps — order dependent                           *)
+(* evaluator.parseFontProps — since /repo 62da4a1 a loop over the slice arg.Order (no map-range site);
+   _partial / _before_fix_refuted are about the loop over arg.Pairs it replaced *)
 Theorem C08_parseFontProps_partial : forall pi1 pi2,
   Permutation pi1 pi2 -> NoDup (map fst pi1) ->
   (forall x y e1 e2, In x pi1 -> In y pi1 -> font_body x = Some e1 -> font_body y = Some e2 -> e1 = e2) ->
@@ -133,15 +146,15 @@ Theorem C08_parseFontProps_partial : forall pi1 pi2,
 Proof. exact parseFontProps_perm. Qed.
 Print Assumptions C08_parseFontProps_partial.
 
-Theorem C08_parseFontProps_refuted : exists pi1 pi2, Permutation pi1 pi2 /\
+Theorem C08_parseFontProps_before_fix_refuted : exists pi1 pi2, Permutation pi1 pi2 /\
   match parseFontProps pi1, parseFontProps pi2 with inl e1, inl e2 => e1 <> e2 | _, _ => False end.
 Proof.
   exists [(s_ "size", FStr (s_ "a")); (s_ "style", FNum true)], [(s_ "style", FNum true); (s_ "size", FStr (s_ "a"))].
   split; [apply perm_swap | vm_compute; discriminate].
 Qed.
-Print Assumptions C08_parseFontProps_refuted.
+Print Assumptions C08_parseFontProps_before_fix_refuted.
 
-(* proposed fix (iterate arg.Order): agrees with the current code whenever that is deterministic *)
+(* the code since 62da4a1 (iterate arg.Order): agrees with the old loop whenever that was deterministic *)
 Theorem C08_parseFontProps_fixed : forall order pi,
   Permutation order pi -> NoDup (map fst order) ->
   (forall x y e1 e2, In x order -> In y order -> font_body x = Some e1 -> font_body y = Some e2 -> e1 = e2) ->
@@ -150,7 +163,8 @@ Proof. exact parseFontProps_perm. Qed.
 Print Assumptions C08_parseFontProps_fixed.
 
 (* ------------------------------------------------------------------ *)
-(* mapVal.Equals — order dependent only through a panicking comparison  *)
+(* mapVal.Equals — since /repo abeb6de a loop over the slice m.Order (no map-range site);
+   _partial / _before_fix_refuted are about the loop over m.Pairs it replaced *)
 Theorem C08_mapVal_Equals_partial : forall V (eqv : V -> V -> tri) (pi1 pi2 : list (str * V)) len2 m2,
   Permutation pi1 pi2 -> (forall kv, In kv pi1 -> equals_body eqv m2 kv <> PP) ->
   mapVal_Equals eqv pi1 len2 m2 = mapVal_Equals eqv pi2 len2 m2.
@@ -158,13 +172,13 @@ Proof. exact @mapVal_Equals_perm. Qed.
 Print Assumptions C08_mapVal_Equals_partial.
 
 Definition eq_m2 : fmap val := fun k => if str_eqb k (s_ "a") then Some (VNum 2) else if str_eqb k (s_ "b") then Some (VNum 3) else None.
-Theorem C08_mapVal_Equals_refuted : exists pi1 pi2, Permutation pi1 pi2 /\
+Theorem C08_mapVal_Equals_before_fix_refuted : exists pi1 pi2, Permutation pi1 pi2 /\
   mapVal_Equals veq pi1 2 eq_m2 = PP /\ mapVal_Equals veq pi2 2 eq_m2 = FF.
 Proof.
   exists [(s_ "a", VArr []); (s_ "b", VNum 1)], [(s_ "b", VNum 1); (s_ "a", VArr [])].
   split; [apply perm_swap | vm_compute; split; reflexivity].
 Qed.
-Print Assumptions C08_mapVal_Equals_refuted.
+Print Assumptions C08_mapVal_Equals_before_fix_refuted.
 
 (* ------------------------------------------------------------------ *)
 (* name lists: same set, order follows the iteration                    *)
@@ -187,14 +201,14 @@ Print Assumptions C08_name_lists_refuted.
 Definition ct_lit_num := TComp true false (TBase BNum).
 Definition ct_var_num := TComp true true (TBase BNum).
 Definition ct_lit_str := TComp true false (TBase BStr).
-Theorem C08_parseMapLiteral_combine_refuted : exists pi1 pi2, Permutation pi1 pi2 /\
+Theorem C08_parseMapLiteral_combine_before_fix_refuted : exists pi1 pi2, Permutation pi1 pi2 /\
   parseMapLiteral_sub pi1 = TComp true false TAny /\ parseMapLiteral_sub pi2 = TAny.
 Proof.
   exists [(s_ "a", ct_lit_num); (s_ "b", ct_var_num); (s_ "c", ct_lit_str)],
          [(s_ "b", ct_var_num); (s_ "a", ct_lit_num); (s_ "c", ct_lit_str)].
   split; [apply perm_swap | vm_compute; split; reflexivity].
 Qed.
-Print Assumptions C08_parseMapLiteral_combine_refuted.
+Print Assumptions C08_parseMapLiteral_combine_before_fix_refuted.
 
 (* what holds: as long as no value has a Fixed type (no variable of array/map
    type among the values: literals, basic values, calls), combineTypes is the
@@ -213,28 +227,29 @@ Local Open Scope string_scope.
 
 Definition registry : list cert := [
   {| c_id := "pkg/parser.MapLiteral.infer#1"; c_cls := OrderIndependent; c_proof := C08_mapLiteral_infer |};
-  {| c_id := "pkg/parser.wrapAny#1"; c_cls := OrderIndependent; c_proof := C08_wrapAny_pairs |};
-  {| c_id := "pkg/parser.parser.parseMapLiteral#1"; c_cls := OrderDependent;
-     c_proof := conj C08_parseMapLiteral_combine_refuted C08_parseMapLiteral_combine_partial |};
-  {| c_id := "pkg/parser.parser.parseMapLiteral#2"; c_cls := OrderIndependent; c_proof := C08_wrapAny_pairs |};
+  (* observable result (crash or not, rewritten map) order independent; the only thing that follows the order is
+     which location a wrapAny internal-error CRASH names when two or more values trigger it
+     (C08_wrapAny_panic_location_refuted) — a crash is C03's violation, and since /repo 0e214ac no input is known
+     that makes wrapAny crash at all; harness key wrapAny-panic-location-order, a VIOLATION if it ever shows up *)
+  {| c_id := "pkg/parser.wrapAny#1"; c_cls := OrderIndependent;
+     c_proof := conj C08_wrapAny_pairs C08_wrapAny_panic_location_refuted |};
+  (* the only map range left in parseMapLiteral (since e6ebb6a): Pairs[key] = wrapAny(val, sub) *)
+  {| c_id := "pkg/parser.parser.parseMapLiteral#1"; c_cls := OrderIndependent;
+     c_proof := conj C08_wrapAny_pairs C08_wrapAny_panic_location_refuted |};
   {| c_id := "pkg/parser.newParser#1"; c_cls := OrderIndependent; c_proof := C08_newParser_copy |};
   {| c_id := "pkg/parser.parser.parseProgram#1"; c_cls := OrderIndependent;
      c_proof := conj C08_parseProgram_globals C08_builtin_global_names_distinct |};
-  {| c_id := "pkg/parser.parser.validateScope#1"; c_cls := OrderDependent;
-     c_proof := conj C08_validateScope_refuted (conj C08_validateScope_partial C08_validateScope_fixed) |};
+  (* still ranges over scope.vars, but sorts what it collected (since af9ee3d) *)
+  {| c_id := "pkg/parser.parser.validateScope#1"; c_cls := OrderIndependent; c_proof := C08_validateScope_fixed |};
   {| c_id := "pkg/parser.parser.calledBuiltinFuncs#1"; c_cls := OrderLeaksIntoNameListOnly;
      c_proof := conj C08_name_lists_refuted C08_name_lists_partial |};
   {| c_id := "pkg/evaluator.builtinsDeclsFromBuiltins#1"; c_cls := OrderIndependent; c_proof := C08_builtinsDecls_copy |};
   {| c_id := "pkg/evaluator.builtinsDeclsFromBuiltins#2"; c_cls := OrderIndependent; c_proof := C08_builtinsDecls_copy |};
   {| c_id := "pkg/evaluator.sameMap#1"; c_cls := OrderIndependent; c_proof := C08_sameMap |};
-  {| c_id := "pkg/evaluator.parseFontProps#1"; c_cls := OrderDependent;
-     c_proof := conj C08_parseFontProps_refuted (conj C08_parseFontProps_partial C08_parseFontProps_fixed) |};
   {| c_id := "pkg/evaluator.NewEvaluator#1"; c_cls := OrderIndependent;
      c_proof := conj C08_newEvaluator_globals C08_builtin_global_names_distinct |};
   {| c_id := "pkg/evaluator.Evaluator.evalProgram#1"; c_cls := OrderLeaksIntoNameListOnly;
-     c_proof := conj C08_name_lists_refuted C08_name_lists_partial |};
-  {| c_id := "pkg/evaluator.mapVal.Equals#1"; c_cls := OrderDependent;
-     c_proof := conj C08_mapVal_Equals_refuted C08_mapVal_Equals_partial |}
+     c_proof := conj C08_name_lists_refuted C08_name_lists_partial |}
 ].
 
 (* other sources of run-to-run variation found by the translator, with the
@@ -266,11 +281,10 @@ Proof.
 Qed.
 Print Assumptions C08_registry_not_stale.
 
-(* the sites at which the iteration order can reach an observable of C08 *)
+(* the sites at which the iteration order can reach an observable of C08: none
+   (since /repo 7307e12 af9ee3d 62da4a1 e6ebb6a abeb6de) *)
 Theorem C08_order_dependent_sites :
-  map c_id (filter (fun c => match c_cls c with OrderDependent => true | _ => false end) registry) =
-  ["pkg/parser.parser.parseMapLiteral#1"; "pkg/parser.parser.validateScope#1"; "pkg/evaluator.parseFontProps#1";
-   "pkg/evaluator.mapVal.Equals#1"].
+  map c_id (filter (fun c => match c_cls c with OrderDependent => true | _ => false end) registry) = [].
 Proof. reflexivity. Qed.
 Print Assumptions C08_order_dependent_sites.
 
